@@ -237,6 +237,11 @@ func (w *World) abort(t *simcore.Task, wt *WTxn) {
 	}
 	wt.finished = true
 	w.abortedTxn[wt.id] = true
+	if wt.ops > 0 {
+		for _, ti := range wt.tables {
+			w.tables[ti].M.AbortedWrites++
+		}
+	}
 	tx := tctx(t)
 	// reference answers from the committed state right before the Abort (C02: abort leaves no trace)
 	var ref []answer
